@@ -18,6 +18,13 @@ pub struct Finding {
     pub msg: String,
 }
 
+/// findings beyond the first few of a run are not recorded (they only cost memory)
+fn cap_push(v: &mut Vec<Finding>, f: Finding) {
+    if v.len() < 6 || (f.known.is_none() && v.iter().all(|x| x.known.is_some())) {
+        v.push(f);
+    }
+}
+
 fn viol(msg: String) -> Finding {
     Finding { known: None, msg }
 }
@@ -109,7 +116,7 @@ pub fn check_actions(c: &SimCase, tr: &[OutEv], acts: &[Vec<TriggerAction>], whi
     let mut explored = 0usize;
     while let Some((i0, sides, ch, forced)) = stack.pop() {
         explored += 1;
-        if explored > 3000 {
+        if explored > 600 {
             break;
         }
         let (done, aborted) = run_from(c, tr, acts, i0, sides, ch, forced, &mut stack, Some(which));
@@ -156,18 +163,18 @@ fn run_from(
             let late: Vec<usize> = sd.slot.iter().filter(|(_, (_, due))| *due < e.t).map(|(m, _)| *m).collect();
             for m in late {
                 let (a, due) = sd.slot.remove(&m).unwrap();
-                ch.c17.push(viol(format!("{} machine {} action {:?} due at {} did not fire before simulated time reached {} (event #{})", kn, m, a, due, e.t, i)));
+                cap_push(&mut ch.c17, viol(format!("{} machine {} action {:?} due at {} did not fire before simulated time reached {} (event #{})", kn, m, a, due, e.t, i)));
             }
             let late: Vec<usize> = sd.timer.iter().filter(|(_, exp)| **exp < e.t).map(|(m, _)| *m).collect();
             for m in late {
                 let exp = sd.timer.remove(&m).unwrap();
-                ch.c18.push(viol(format!("{} machine {} internal timer expiring at {} got no TimerEnd before simulated time reached {} (event #{})", kn, m, exp, e.t, i)));
+                cap_push(&mut ch.c18, viol(format!("{} machine {} internal timer expiring at {} got no TimerEnd before simulated time reached {} (event #{})", kn, m, exp, e.t, i)));
             }
             let mut keep = vec![];
             for (m, t, req) in sd.ut.drain(..) {
                 if t < e.t {
                     if req {
-                        ch.c18.push(viol(format!("{} machine {} UpdateTimer at {} set the timer but no TimerBegin was reported at that instant (event #{})", kn, m, t, i)));
+                        cap_push(&mut ch.c18, viol(format!("{} machine {} UpdateTimer at {} set the timer but no TimerBegin was reported at that instant (event #{})", kn, m, t, i)));
                     }
                 } else {
                     keep.push((m, t, req));
@@ -178,7 +185,7 @@ fn run_from(
             sd.timer_tie.retain(|x| x.1 >= e.t);
             if sd.active && sd.until < e.t {
                 let f = format!("{} blocking expiring at {} got no BlockingEnd before simulated time reached {} (event #{})", kn, sd.until, e.t, i);
-                ch.c16.push(if sd.zero_dur { Finding { known: Some("F8"), msg: f } } else { viol(f) });
+                cap_push(&mut ch.c16, if sd.zero_dur { Finding { known: Some("F8"), msg: f } } else { viol(f) });
                 sd.active = false;
                 sd.zero_dur = false;
             }
@@ -219,7 +226,7 @@ fn run_from(
                     };
                 }
                 match &fired {
-                    None => ch.c17.push(viol(format!(
+                    None => cap_push(&mut ch.c17, viol(format!(
                         "{} {} for machine {} at {} (event #{}) is not the completion of the machine's pending action (pending: {:?})",
                         sname,
                         if want_pad { "PaddingSent" } else { "BlockingBegin" },
@@ -230,7 +237,7 @@ fn run_from(
                     ))),
                     Some(TriggerAction::SendPadding { bypass, replace, .. }) => {
                         if (e.bypass, e.replace) != (*bypass, *replace) {
-                            ch.c17.push(viol(format!("{} PaddingSent of machine {} at {} carries flags bypass={} replace={} but the action said bypass={} replace={}", sname, m, e.t, e.bypass, e.replace, bypass, replace)));
+                            cap_push(&mut ch.c17, viol(format!("{} PaddingSent of machine {} at {} carries flags bypass={} replace={} but the action said bypass={} replace={}", sname, m, e.t, e.bypass, e.replace, bypass, replace)));
                         }
                     }
                     Some(TriggerAction::BlockOutgoing { duration, bypass, replace, .. }) => {
@@ -261,10 +268,10 @@ fn run_from(
                     || sd.slot_tie.iter().any(|x| zero_block(&x.1, x.2));
                 let mk = |f: String| if pending_zero { Finding { known: Some("F8"), msg: f } } else { viol(f) };
                 if !sd.active {
-                    ch.c16.push(mk(format!("{} BlockingEnd at {} (event #{}) without active blocking", sname, e.t, i)));
+                    cap_push(&mut ch.c16, mk(format!("{} BlockingEnd at {} (event #{}) without active blocking", sname, e.t, i)));
                 } else {
                     if sd.until != e.t {
-                        ch.c16.push(mk(format!("{} BlockingEnd at {} (event #{}) but the blocking expires at {}", sname, e.t, i, sd.until)));
+                        cap_push(&mut ch.c16, mk(format!("{} BlockingEnd at {} (event #{}) but the blocking expires at {}", sname, e.t, i, sd.until)));
                     }
                     sd.active = false;
                     sd.zero_dur = false;
@@ -280,7 +287,7 @@ fn run_from(
                         "{} TunnelSent (padding={} bypass={}) at {} (event #{}) while blocking is active until {} (bypassable={})",
                         sname, e.pad, e.bypass, e.t, i, sd.until, sd.bypassable
                     );
-                    ch.c16.push(if sd.zero_dur {
+                    cap_push(&mut ch.c16, if sd.zero_dur {
                         Finding { known: Some("F8"), msg: f }
                     } else {
                         viol(f)
@@ -295,7 +302,7 @@ fn run_from(
                         let p = sd.ut.iter().position(|x| x.0 == m && x.1 == e.t && x.2).unwrap_or(p);
                         sd.ut.remove(p);
                     }
-                    None => ch.c18.push(viol(format!("{} TimerBegin for machine {} at {} (event #{}) without an UpdateTimer action at that instant", sname, m, e.t, i))),
+                    None => cap_push(&mut ch.c18, viol(format!("{} TimerBegin for machine {} at {} (event #{}) without an UpdateTimer action at that instant", sname, m, e.t, i))),
                 }
             }
             K_TIMER_END => {
@@ -305,14 +312,17 @@ fn run_from(
                 } else if let Some(p) = sd.timer_tie.iter().position(|x| x.0 == m && x.1 == e.t) {
                     sd.timer_tie.remove(p);
                 } else {
-                    ch.c18.push(viol(format!("{} TimerEnd for machine {} at {} (event #{}) but its timer is {:?}", sname, m, e.t, i, sd.timer.get(&m))));
+                    cap_push(&mut ch.c18, viol(format!("{} TimerEnd for machine {} at {} (event #{}) but its timer is {:?}", sname, m, e.t, i, sd.timer.get(&m))));
                 }
             }
             _ => {}
         }
         if let Some((s0, c0)) = snapshot {
             for k in alt {
-                stack.push((i, s0.clone(), c0.clone(), Some(k)));
+                // bounded backtracking: beyond this many open alternatives the default resolution stands
+                if stack.len() < 48 {
+                    stack.push((i, s0.clone(), c0.clone(), Some(k)));
+                }
             }
         }
         let sd = &mut sides[si];
